@@ -475,10 +475,31 @@ func (ff *FuncFacts) globalInit(g *ssa.Global) ssa.Value {
 	return nil
 }
 
+// poly is memoised per value while no rule-specific LeafKey is installed: the result
+// is a pure function of both once the facts are solved, and nests of φs are otherwise
+// re-expanded exponentially often (C14's cancel rule took 50 s on one function).
 func (ff *FuncFacts) poly(v ssa.Value, depth int) *Poly {
 	if v == nil {
 		return polyLeaf("?nil", nil)
 	}
+	if ff.LeafKey == nil && ff.in != nil {
+		// a result computed with at least as much remaining depth budget is reused (depth only
+		// matters at the expansion cut-offs, where more budget means a more precise form)
+		k := polyMemoKey{v}
+		if r, ok := ff.polyMemo[k]; ok && r.depth <= depth {
+			return r.p
+		}
+		r := ff.poly0(v, depth)
+		if ff.polyMemo == nil {
+			ff.polyMemo = map[polyMemoKey]polyMemoVal{}
+		}
+		ff.polyMemo[k] = polyMemoVal{r, depth}
+		return r
+	}
+	return ff.poly0(v, depth)
+}
+
+func (ff *FuncFacts) poly0(v ssa.Value, depth int) *Poly {
 	if depth > 40 {
 		return ff.polyLeafOf(v)
 	}
